@@ -283,6 +283,10 @@ def gen_shapes(rng, n):
         {'t': 'ring', 'c': (20.0, 30.0), 'rin': 500.0, 'rout': 9000.0, 'amin': -40.0, 'amax': 25.0},
         {'t': 'ring', 'c': (-120.0, -50.0), 'rin': 50.0, 'rout': 700.0, 'amin': 270.0, 'amax': 360.0},
         {'t': 'ring', 'c': (75.0, 10.0), 'rin': 2000.0, 'rout': 40000.0, 'amin': 200.0, 'amax': 520.0},
+        # one full turn whose ends are not 0 / 360 (and more than a turn): every bearing is inside the range
+        {'t': 'ring', 'c': (12.0, 40.0), 'rin': 300.0, 'rout': 2500.0, 'amin': -180.0, 'amax': 180.0},
+        {'t': 'ring', 'c': (-60.0, -20.0), 'rin': 1000.0, 'rout': 30000.0, 'amin': 90.0, 'amax': 450.0},
+        {'t': 'ring', 'c': (100.0, 5.0), 'rin': 50.0, 'rout': 900.0, 'amin': -90.0, 'amax': 300.0},
     ]
     while len(out) < n:
         c = (rng.uniform(-180, 180), rng.uniform(-75, 75))
@@ -465,6 +469,10 @@ def main():
         for clause, detail in oracle_boundary(sh, kreq, pts, stats):
             violations.append(dict(m, clause=clause, detail=detail))
         # the polygon form / linear ring carry the same coordinates
+        if si % 2 == 1:
+            # the polygon form for the requested k must not depend on what was asked of the same object before
+            guarded(lambda: (shape.to_polygon(k=5), hash(shape), shape.centroid, shape.circumscribing_circle(), shape.to_polygon()))
+            ck.count('polygon form after other queries on the same object')
         poly = guarded(lambda: [(c.longitude, c.latitude) for c in shape.to_polygon(**kw).outline])
         ring0 = guarded(lambda: [(c.longitude, c.latitude) for c in shape.linear_rings(**kw)[0]])
         want_ring = pts if not is_full(sh) else pts + [pts[0]]
